@@ -121,6 +121,13 @@ CANON = [
     ("gopher-search-plus-then-empty", "/docs\tquery\t+\t"), ("gopher-dollar-then-empty", "/docs\t$\t"),
     ("gopherp-leading-tab", "\t+"), ("gopherp-two-leading-tabs", "\t\t+"), ("gopher-trailing-space-plus", "/docs\t+ "),
     ("gopherp-leading-space", " /docs\t+"),
+    # first words that are not methods but look a little like them; an empty first word
+    ("http-empty-method", " /docs HTTP/1.0"), ("http-method-E", "E / HTTP/1.0"), ("http-method-THE", "THE / HTTP/1.1"),
+    ("http-method-GETHEAD", "GETHEAD / HTTP/1.1"), ("http-method-ET", "ET /docs HTTP/1.0"), ("http-method-GE", "GE / HTTP/1.0"),
+    ("http-empty-method-plus", " /x HTTP/1.0\t+"),
+    # Spartan-shaped lines with bytes that are neither ASCII nor UTF-8
+    ("spartan-latin1-path", "localhost /caf\udce9.txt 0"), ("spartan-ff-host", "h\udcffst /docs 0"),
+    ("spartan-latin1-plus", "localhost /caf\udce9\t+ 0"), ("spartan-c0-80", "h /\udcc0\udc80 0"),
 ]
 HEADER_VARIANTS = {
     "none": [],
